@@ -213,7 +213,9 @@ class DiagLinearOperator(TriangularLinearOperator):
             return TriangularLinearOperator(self @ other._tensor, upper=other.upper)
 
         if isinstance(other, BlockDiagLinearOperator):
-            diag_reshape = self._diag.view(*other.base_linear_op.shape[:-1])
+            batch_shape = torch.broadcast_shapes(self.batch_shape, other.batch_shape)
+            diag_reshape = self._diag.expand(*batch_shape, self._diag.shape[-1])
+            diag_reshape = diag_reshape.reshape(*batch_shape, *other.base_linear_op.shape[-3:-1])
             diag = DiagLinearOperator(diag_reshape)
             # using matmul here avoids having to implement special case of elementwise multiplication
             # with block diagonal operator, which itself has special cases for vectors and matrices
@@ -351,7 +353,7 @@ class ConstantDiagLinearOperator(DiagLinearOperator):
     def _mul_constant(
         self: Float[LinearOperator, "*batch M N"], other: Union[float, torch.Tensor]
     ) -> Float[LinearOperator, "*batch M N"]:
-        return self.__class__(self.diag_values * other, diag_shape=self.diag_shape)
+        return self.__class__(self.diag_values * other.unsqueeze(-1), diag_shape=self.diag_shape)
 
     def _mul_matrix(
         self: Float[LinearOperator, "... #M #N"],
